@@ -196,7 +196,7 @@ Qed.
    i.e. x is at least as close to the square root as g — written without square roots:
        g > x :  num/den <= ((x + g)/2)^2          g < x :  ((x + g)/2)^2 <= num/den
    (F = x 2^1074, G = g 2^1074; 4 * 2^2148 = 2^2150).  Excluded: m = 2^52 above the subnormals, where the float just below x is half an ulp away and the
-   bracket admits it too.  (A negative g is farther from the non-negative root than 0 is.) *)
+   bracket accepts it too.  (A negative g is farther from the non-negative root than 0 is.) *)
 Theorem sqrt_is_nearest m e num den g : 0 < den ->
   valid_binary prec emax (S754_finite false m e) = true -> (Zpos m <> 2 ^ 52 \/ e = -1074) ->
   sqrt_is (S754_finite false m e) num den = true ->
